@@ -47,7 +47,8 @@ def analyse_cube(prog, module, clsname, max_depth=10):
         for f in cb["resolved"]:
             if f not in info.task_fis:
                 info.task_fis.append(f)
-    info.serial_calls = [ev for ev in top if ev.kind == "call" and ev["via"] is None and any(f in info.task_fis for f in ev["resolved"])]
+    # serial invocations: a direct call in a loop, or the builtin map() driving the same function
+    info.serial_calls = [ev for ev in top if ev.kind == "call" and ev["via"] in (None, "map") and any(f in info.task_fis for f in ev["resolved"])]
     return info
 
 
